@@ -1,6 +1,6 @@
 /-
-C06: progress of the single-phase evaluator, and the invariant of the 3-phase engine (the k-th 3-phase sample is
-built from the k-th outputs of the three per-phase engines).  Serves Props/C06.lean.
+C06: progress of the single-phase evaluator, and the invariant of the resynchronising 3-phase engine (after every
+round the three per-phase read positions stand at the same tick).  Serves Props/C06.lean.
 -/
 import Frequenz.Lemmas.Evaluator
 
@@ -122,70 +122,164 @@ instance (P1 P2 P3 : Phase) (t0 : Nat → Nat → Int) (src : Nat → Nat → In
     Decidable (AdmEv3 P1 P2 P3 t0 src σ e) := by
   cases e <;> unfold AdmEv3 <;> infer_instance
 
-def AdmFrom3 (P1 P2 P3 : Phase) (t0 : Nat → Nat → Int) (src : Nat → Nat → Int → Option Rat) :
+def AdmFrom3 (resync : Bool) (P1 P2 P3 : Phase) (t0 : Nat → Nat → Int) (src : Nat → Nat → Int → Option Rat) :
     St3 → List Ev3 → Prop
   | _, [] => True
-  | σ, e :: es => AdmEv3 P1 P2 P3 t0 src σ e ∧ AdmFrom3 P1 P2 P3 t0 src (step3 P1 P2 P3 σ e) es
+  | σ, e :: es => AdmEv3 P1 P2 P3 t0 src σ e ∧ AdmFrom3 resync P1 P2 P3 t0 src (step3 resync P1 P2 P3 σ e) es
 
-instance (P1 P2 P3 : Phase) (t0 : Nat → Nat → Int) (src : Nat → Nat → Int → Option Rat) :
-    ∀ (σ : St3) (es : List Ev3), Decidable (AdmFrom3 P1 P2 P3 t0 src σ es)
+instance (resync : Bool) (P1 P2 P3 : Phase) (t0 : Nat → Nat → Int) (src : Nat → Nat → Int → Option Rat) :
+    ∀ (σ : St3) (es : List Ev3), Decidable (AdmFrom3 resync P1 P2 P3 t0 src σ es)
   | _, [] => by unfold AdmFrom3; infer_instance
   | σ, e :: es => by
       unfold AdmFrom3
-      have := instDecidableAdmFrom3 P1 P2 P3 t0 src (step3 P1 P2 P3 σ e) es
+      have := instDecidableAdmFrom3 resync P1 P2 P3 t0 src (step3 resync P1 P2 P3 σ e) es
       infer_instance
 
-/-- the k-th 3-phase sample is the zip of the k-th per-phase outputs -/
-def Zipped (σ : St3) : Prop :=
-  ∀ (k : Nat) (o : Sample3), σ.out[k]? = some o →
-    ∃ a b c, σ.s1.out[k]? = some a ∧ σ.s2.out[k]? = some b ∧ σ.s3.out[k]? = some c ∧
-      o = ⟨a.ts, a.val, b.val, c.val⟩
+/-- the value a per-phase engine emits for tick `t` -/
+def phaseVal (P : Phase) (src : Nat → Int → Option Rat) (t : Int) : Option Rat := P.f (valuesAt P.n src t)
+
+/-- the outputs of a per-phase engine are gap-free from its `T0` -/
+theorem out_gapFree {n : Nat} {f : List (Option Rat) → Option Rat} {t0 : Nat → Int}
+    {src : Nat → Int → Option Rat} {σ : St} (h : Inv n f t0 src σ) :
+    GapFree (maxStart n t0) (fun t => f (valuesAt n src t)) σ.out := by
+  intro k s hs
+  rw [h.outs k s hs]
+  exact ⟨rfl, rfl⟩
+
+theorem GapFree.drop {a : Int} {v : Int → Option Rat} {l : List Sample} (h : GapFree a v l) (z : Nat) :
+    GapFree (a + z) v (l.drop z) := by
+  intro k s hs
+  rw [List.getElem?_drop] at hs
+  have := h (z + k) s hs
+  push_cast at this
+  constructor
+  · omega
+  · rw [this.2]; congr 1; omega
+
+/-- the resynchronisation loop on gap-free outputs ends exactly at the sample stamped `t` -/
+theorem seek_spec (v : Int → Option Rat) (t : Int) : ∀ (l : List Sample) (a : Int) (x : Sample) (k : Nat),
+    GapFree a v l → a ≤ t → seek t l = some (x, k) → a + k = t ∧ x.ts = t ∧ x.val = v t
+  | [], _, _, _, _, _, h => by simp [seek] at h
+  | s :: r, a, x, k, hg, hle, h => by
+      have hs := hg 0 s (by simp)
+      simp at hs
+      unfold seek at h
+      by_cases hlt : s.ts < t
+      · rw [if_pos hlt] at h
+        cases hr : seek t r with
+        | none => rw [hr] at h; cases h
+        | some xk =>
+          obtain ⟨x', k'⟩ := xk
+          rw [hr] at h
+          simp only [Option.some.injEq, Prod.mk.injEq] at h
+          obtain ⟨rfl, rfl⟩ := h
+          obtain ⟨e1, e2, e3⟩ := seek_spec v t r (a + 1) x' k' hg.tail (by omega) hr
+          exact ⟨by push_cast; omega, e2, e3⟩
+      · rw [if_neg hlt] at h
+        simp only [Option.some.injEq, Prod.mk.injEq] at h
+        obtain ⟨rfl, rfl⟩ := h
+        have : a = t := by omega
+        subst this
+        exact ⟨by simp, hs.1, hs.2⟩
+
+theorem headTs_gapFree {a : Int} {v : Int → Option Rat} {l : List Sample} (h : GapFree a v l)
+    (hne : l.isEmpty = false) : headTs l = a := by
+  cases l with
+  | nil => simp at hne
+  | cons s r => have := h 0 s (by simp); simp at this; exact this.1
+
+/-- the latest of the three per-phase start timestamps -/
+def maxStart3 (P1 P2 P3 : Phase) (t0 : Nat → Nat → Int) : Int :=
+  max (max (maxStart P1.n (t0 0)) (maxStart P2.n (t0 1))) (maxStart P3.n (t0 2))
 
 structure Inv3 (P1 P2 P3 : Phase) (t0 : Nat → Nat → Int) (src : Nat → Nat → Int → Option Rat) (σ : St3) :
     Prop where
   i1 : Inv P1.n P1.f (t0 0) (src 0) σ.s1
   i2 : Inv P2.n P2.f (t0 1) (src 1) σ.s2
   i3 : Inv P3.n P3.f (t0 2) (src 2) σ.s3
-  zipped : Zipped σ
-
-theorem zipped_mono {σ : St3} {s1' s2' s3' : St} (h : Zipped σ)
-    (h1 : ∃ t, s1'.out = σ.s1.out ++ t) (h2 : ∃ t, s2'.out = σ.s2.out ++ t) (h3 : ∃ t, s3'.out = σ.s3.out ++ t) :
-    Zipped { σ with s1 := s1', s2 := s2', s3 := s3' } := by
-  intro k o ho
-  obtain ⟨a, b, c, ha, hb, hc, rfl⟩ := h k o ho
-  obtain ⟨t1, h1⟩ := h1
-  obtain ⟨t2, h2⟩ := h2
-  obtain ⟨t3, h3⟩ := h3
-  refine ⟨a, b, c, ?_, ?_, ?_, rfl⟩ <;> dsimp only
-  · rw [h1, List.getElem?_append_left (lt_length_of_getElem? _ _ _ ha)]; exact ha
-  · rw [h2, List.getElem?_append_left (lt_length_of_getElem? _ _ _ hb)]; exact hb
-  · rw [h3, List.getElem?_append_left (lt_length_of_getElem? _ _ _ hc)]; exact hc
+  fresh : σ.out = [] → σ.z1 = 0 ∧ σ.z2 = 0 ∧ σ.z3 = 0
+  synced : σ.out ≠ [] →
+      maxStart P1.n (t0 0) + σ.z1 = maxStart3 P1 P2 P3 t0 + σ.out.length ∧
+      maxStart P2.n (t0 1) + σ.z2 = maxStart3 P1 P2 P3 t0 + σ.out.length ∧
+      maxStart P3.n (t0 2) + σ.z3 = maxStart3 P1 P2 P3 t0 + σ.out.length
+  outs : ∀ (k : Nat) (o : Sample3), σ.out[k]? = some o →
+      o = ⟨maxStart3 P1 P2 P3 t0 + k, phaseVal P1 (src 0) (maxStart3 P1 P2 P3 t0 + k),
+           phaseVal P2 (src 1) (maxStart3 P1 P2 P3 t0 + k), phaseVal P3 (src 2) (maxStart3 P1 P2 P3 t0 + k)⟩
 
 theorem inv3_init (P1 P2 P3 : Phase) (t0 : Nat → Nat → Int) (src : Nat → Nat → Int → Option Rat) :
     Inv3 P1 P2 P3 t0 src St3.init :=
-  ⟨inv_init _ _ _ _, inv_init _ _ _ _, inv_init _ _ _ _, by intro k o ho; simp [St3.init] at ho⟩
+  ⟨inv_init _ _ _ _, inv_init _ _ _ _, inv_init _ _ _ _, by intro _; simp [St3.init],
+   by intro h; simp [St3.init] at h, by intro k o ho; simp [St3.init] at ho⟩
+
+theorem inv3_zip {P1 P2 P3 : Phase} {t0 : Nat → Nat → Int} {src : Nat → Nat → Int → Option Rat} {σ σ' : St3}
+    (h : Inv3 P1 P2 P3 t0 src σ) (hz : zipResync σ = some σ') : Inv3 P1 P2 P3 t0 src σ' := by
+  unfold zipResync at hz
+  dsimp only at hz
+  have g1 := (out_gapFree h.i1).drop σ.z1
+  have g2 := (out_gapFree h.i2).drop σ.z2
+  have g3 := (out_gapFree h.i3).drop σ.z3
+  by_cases he : ((σ.s1.out.drop σ.z1).isEmpty || (σ.s2.out.drop σ.z2).isEmpty || (σ.s3.out.drop σ.z3).isEmpty) = true
+  · rw [if_pos he] at hz; cases hz
+  · rw [if_neg he] at hz
+    simp only [Bool.or_eq_true, not_or, Bool.not_eq_true] at he
+    obtain ⟨⟨he1, he2⟩, he3⟩ := he
+    rw [headTs_gapFree g1 he1, headTs_gapFree g2 he2, headTs_gapFree g3 he3] at hz
+    -- the latest of the three head timestamps is the tick that is due
+    have hdue : max (max (maxStart P1.n (t0 0) + (σ.z1 : Int)) (maxStart P2.n (t0 1) + (σ.z2 : Int)))
+        (maxStart P3.n (t0 2) + (σ.z3 : Int)) = maxStart3 P1 P2 P3 t0 + σ.out.length := by
+      by_cases hout : σ.out = []
+      · obtain ⟨e1, e2, e3⟩ := h.fresh hout
+        rw [e1, e2, e3, hout]
+        unfold maxStart3
+        simp
+      · obtain ⟨e1, e2, e3⟩ := h.synced hout
+        rw [e1, e2, e3]
+        omega
+    rw [hdue] at hz
+    cases hs1 : seek (maxStart3 P1 P2 P3 t0 + σ.out.length) (σ.s1.out.drop σ.z1) with
+    | none => rw [hs1] at hz; cases hz
+    | some ak =>
+      obtain ⟨a, k1⟩ := ak
+      rw [hs1] at hz
+      dsimp only at hz
+      cases hs2 : seek (maxStart3 P1 P2 P3 t0 + σ.out.length) (σ.s2.out.drop σ.z2) with
+      | none => rw [hs2] at hz; cases hz
+      | some bk =>
+        obtain ⟨b, k2⟩ := bk
+        rw [hs2] at hz
+        dsimp only at hz
+        cases hs3 : seek (maxStart3 P1 P2 P3 t0 + σ.out.length) (σ.s3.out.drop σ.z3) with
+        | none => rw [hs3] at hz; cases hz
+        | some ck =>
+          obtain ⟨c, k3⟩ := ck
+          rw [hs3] at hz
+          dsimp only at hz
+          cases hz
+          obtain ⟨a1, a2, a3⟩ := seek_spec _ _ _ _ a k1 g1 (by omega) hs1
+          obtain ⟨b1, b2, b3⟩ := seek_spec _ _ _ _ b k2 g2 (by omega) hs2
+          obtain ⟨c1, c2, c3⟩ := seek_spec _ _ _ _ c k3 g3 (by omega) hs3
+          refine ⟨h.i1, h.i2, h.i3, ?_, ?_, ?_⟩ <;> dsimp only
+          · intro hc; simp at hc
+          · intro _
+            simp only [List.length_append, List.length_cons, List.length_nil]
+            push_cast
+            refine ⟨by omega, by omega, by omega⟩
+          · intro k o ho
+            rcases getElem?_append_cases _ _ _ _ ho with ho | ⟨rfl, rfl⟩
+            · exact h.outs k o ho
+            · rw [a2, a3, b3, c3]; rfl
 
 theorem inv3_step {P1 P2 P3 : Phase} {t0 : Nat → Nat → Int} {src : Nat → Nat → Int → Option Rat} {σ : St3}
     (hn1 : 0 < P1.n) (hn2 : 0 < P2.n) (hn3 : 0 < P3.n) (h : Inv3 P1 P2 P3 t0 src σ) (e : Ev3)
-    (ha : AdmEv3 P1 P2 P3 t0 src σ e) : Inv3 P1 P2 P3 t0 src (step3 P1 P2 P3 σ e) := by
+    (ha : AdmEv3 P1 P2 P3 t0 src σ e) : Inv3 P1 P2 P3 t0 src (step3 true P1 P2 P3 σ e) := by
   cases e with
   | zip =>
-    show Inv3 P1 P2 P3 t0 src ((zipStep σ).getD σ)
-    cases hz : zipStep σ with
+    show Inv3 P1 P2 P3 t0 src ((zipStep true σ).getD σ)
+    have : zipStep true σ = zipResync σ := rfl
+    rw [this]
+    cases hz : zipResync σ with
     | none => exact h
-    | some σ' =>
-      simp only [Option.getD_some]
-      unfold zipStep at hz
-      dsimp only at hz
-      split at hz
-      · rename_i a b c ha' hb' hc'
-        cases hz
-        refine ⟨h.i1, h.i2, h.i3, ?_⟩
-        intro k o ho
-        rcases getElem?_append_cases _ _ _ _ ho with ho | ⟨rfl, rfl⟩
-        · exact h.zipped k o ho
-        · exact ⟨a, b, c, ha', hb', hc', rfl⟩
-      · cases hz
+    | some σ' => exact inv3_zip h hz
   | ph p e =>
     simp only [AdmEv3] at ha
     show Inv3 P1 P2 P3 t0 src
@@ -194,33 +288,28 @@ theorem inv3_step {P1 P2 P3 : Phase} {t0 : Nat → Nat → Int} {src : Nat → N
        else if p = 2 then { σ with s3 := step P3.n P3.f σ.s3 e } else σ)
     by_cases h0 : p = 0
     · rw [if_pos h0] at ha ⊢
-      have := inv_step hn1 h.i1 e ha
-      refine ⟨this, h.i2, h.i3, ?_⟩
-      exact zipped_mono (σ := σ) h.zipped (step_out_append _ _ _ _) ⟨[], by simp⟩ ⟨[], by simp⟩
+      exact ⟨inv_step hn1 h.i1 e ha, h.i2, h.i3, h.fresh, h.synced, h.outs⟩
     · rw [if_neg h0] at ha ⊢
       by_cases h1 : p = 1
       · rw [if_pos h1] at ha ⊢
-        have := inv_step hn2 h.i2 e ha
-        refine ⟨h.i1, this, h.i3, ?_⟩
-        exact zipped_mono (σ := σ) h.zipped ⟨[], by simp⟩ (step_out_append _ _ _ _) ⟨[], by simp⟩
+        exact ⟨h.i1, inv_step hn2 h.i2 e ha, h.i3, h.fresh, h.synced, h.outs⟩
       · rw [if_neg h1] at ha ⊢
         by_cases h2 : p = 2
         · rw [if_pos h2] at ha ⊢
-          have := inv_step hn3 h.i3 e ha
-          refine ⟨h.i1, h.i2, this, ?_⟩
-          exact zipped_mono (σ := σ) h.zipped ⟨[], by simp⟩ ⟨[], by simp⟩ (step_out_append _ _ _ _)
+          exact ⟨h.i1, h.i2, inv_step hn3 h.i3 e ha, h.fresh, h.synced, h.outs⟩
         · rw [if_neg h2] at ha; exact absurd ha id
 
 theorem inv3_foldl {P1 P2 P3 : Phase} {t0 : Nat → Nat → Int} {src : Nat → Nat → Int → Option Rat}
     (hn1 : 0 < P1.n) (hn2 : 0 < P2.n) (hn3 : 0 < P3.n) : ∀ (es : List Ev3) (σ : St3),
-    Inv3 P1 P2 P3 t0 src σ → AdmFrom3 P1 P2 P3 t0 src σ es → Inv3 P1 P2 P3 t0 src (es.foldl (step3 P1 P2 P3) σ)
+    Inv3 P1 P2 P3 t0 src σ → AdmFrom3 true P1 P2 P3 t0 src σ es →
+    Inv3 P1 P2 P3 t0 src (es.foldl (step3 true P1 P2 P3) σ)
   | [], _, h, _ => h
   | e :: es, σ, h, ha =>
-    inv3_foldl hn1 hn2 hn3 es (step3 P1 P2 P3 σ e) (inv3_step hn1 hn2 hn3 h e ha.1) ha.2
+    inv3_foldl hn1 hn2 hn3 es (step3 true P1 P2 P3 σ e) (inv3_step hn1 hn2 hn3 h e ha.1) ha.2
 
 theorem inv3_run {P1 P2 P3 : Phase} {t0 : Nat → Nat → Int} {src : Nat → Nat → Int → Option Rat}
     (hn1 : 0 < P1.n) (hn2 : 0 < P2.n) (hn3 : 0 < P3.n) (es : List Ev3)
-    (ha : AdmFrom3 P1 P2 P3 t0 src St3.init es) : Inv3 P1 P2 P3 t0 src (run3 P1 P2 P3 es) :=
+    (ha : AdmFrom3 true P1 P2 P3 t0 src St3.init es) : Inv3 P1 P2 P3 t0 src (run3 true P1 P2 P3 es) :=
   inv3_foldl hn1 hn2 hn3 es St3.init (inv3_init P1 P2 P3 t0 src) ha
 
 end Evaluator
